@@ -35,6 +35,7 @@ type zzC10Input struct {
 	annotation    string // "" | r1 | r2 | malformed      (override of container "agent" on the node)
 	setting       string // "" | agent | sidecar         (container the valid setting gives resources to)
 	addAffinity   bool
+	tolerations   string // "" | catch-all | narrow-seconds | narrow-value | other-effect   (tolerations of the template)
 }
 
 func zzC10Pick() zzC10Input {
@@ -76,6 +77,16 @@ func zzC10Pick() zzC10Input {
 	case "sidecar":
 		in.setting = "sidecar"
 	}
+	switch nondet.String("templateTolerations", "", "catch-all", "narrow-seconds", "narrow-value", "other-effect") {
+	case "catch-all":
+		in.tolerations = "catch-all"
+	case "narrow-seconds":
+		in.tolerations = "narrow-seconds"
+	case "narrow-value":
+		in.tolerations = "narrow-value"
+	case "other-effect":
+		in.tolerations = "other-effect"
+	}
 	return in
 }
 
@@ -92,6 +103,18 @@ func zzC10Build(in zzC10Input) (*datadoghqv1alpha1.ExtendedDaemonSetReplicaSet, 
 	}
 	if in.nContainers == 2 {
 		rs.Spec.Template.Spec.Containers = append(rs.Spec.Template.Spec.Containers, corev1.Container{Name: "sidecar", Image: "sidecar:1"})
+	}
+	// tolerations of the template itself: they must not displace any default DaemonSet toleration
+	switch in.tolerations {
+	case "catch-all":
+		rs.Spec.Template.Spec.Tolerations = []corev1.Toleration{{Operator: corev1.TolerationOpExists}}
+	case "narrow-seconds": // same key and effect as a default one, but time-bounded
+		secs := int64(300)
+		rs.Spec.Template.Spec.Tolerations = []corev1.Toleration{{Key: "node.kubernetes.io/not-ready", Operator: corev1.TolerationOpExists, Effect: corev1.TaintEffectNoExecute, TolerationSeconds: &secs}}
+	case "narrow-value": // same key and effect as a default one, but for one value only
+		rs.Spec.Template.Spec.Tolerations = []corev1.Toleration{{Key: "node.kubernetes.io/disk-pressure", Operator: corev1.TolerationOpEqual, Value: "soft", Effect: corev1.TaintEffectNoSchedule}}
+	case "other-effect":
+		rs.Spec.Template.Spec.Tolerations = []corev1.Toleration{{Key: "node.kubernetes.io/unschedulable", Operator: corev1.TolerationOpExists, Effect: corev1.TaintEffectNoExecute}}
 	}
 	other := corev1.NodeSelectorRequirement{Key: "disk", Operator: corev1.NodeSelectorOpIn, Values: []string{"ssd"}}
 	switch in.affinityShape {
@@ -194,11 +217,22 @@ func ZZ_C10_create() {
 	for _, want := range podutils.StandardDaemonSetTolerations {
 		found := false
 		for _, t := range pod.Spec.Tolerations {
-			if t.Key == want.Key && t.Operator == want.Operator && t.Effect == want.Effect {
+			// the default toleration itself: same key, operator and effect, any value, not time-bounded
+			if t.Key == want.Key && t.Operator == want.Operator && t.Effect == want.Effect && t.Value == want.Value && t.TolerationSeconds == nil {
 				found = true
 			}
 		}
 		nondet.Assert("C10.create.tolerations", found)
+	}
+	// the template's own tolerations are kept
+	for _, want := range rs.Spec.Template.Spec.Tolerations {
+		found := false
+		for _, t := range pod.Spec.Tolerations {
+			if t.Key == want.Key && t.Operator == want.Operator && t.Effect == want.Effect && t.Value == want.Value && (t.TolerationSeconds == nil) == (want.TolerationSeconds == nil) {
+				found = true
+			}
+		}
+		nondet.Assert("C10.create.template-tolerations-kept", found)
 	}
 	// "container resources resolved as node-annotation override, else the valid setting selecting the node, else the template"
 	wantCPU := int64(100)
